@@ -37,6 +37,7 @@ def step (line : String) : String :=
   | "rd" :: rest => VC2.Model.BitIO.handleIO "rd" rest
   | "dd" :: rest => VC2.Model.BitIO.handleIO "dd" rest
   | "wr" :: rest => VC2.Model.BitIO.handleIO "wr" rest
+  | "ws" :: rest => VC2.Model.BitIO.handleIO "ws" rest
   | "wt" :: rest => VC2.Model.Wavelet.handleWt rest
   | "re" :: rest => VC2.Model.SymRe.handleRe rest
   | "fd" :: rest => VC2.Model.FixedDict.handleFd rest
